@@ -417,12 +417,28 @@ class Env:
                 "cause": tags.get("cause", "-"), "op": tags.get("operation") == "op"
                 if "operation" in tags else False}
 
+    _CMP = ("name", "n", "sleep", "k", "err", "stop", "cause", "op", "t")
+
+    def _sink(self, kind: str, rec: dict) -> None:
+        """Record one sink call.  A metric record and a log record that are adjacent (in either
+        order) and identical are one `emit`: both sinks received the same event."""
+        other = "log" if kind == "metric" else "metric"
+        prev = self.trace[-1] if self.trace else None
+        if prev is not None and prev["e"] == other and all(prev[x] == rec[x] for x in self._CMP) \
+                and prev.get("state") == rec.get("state"):
+            merged = dict(rec if kind == "log" else prev)      # the log record carries retry_after_s
+            merged["e"] = "emit"
+            self.trace[-1] = merged
+        else:
+            rec["e"] = kind
+            self.trace.append(rec)
+
     def on_metric(self, event, attempt, sleep_s, tags) -> None:
         rec = {"e": "metric", "name": event, "n": attempt, "sleep": ticks(sleep_s),
                **self._tags(tags), "ra": NONE, "t": self.now()}
         if "state" in tags:
             rec["state"] = tags["state"]
-        self.trace.append(rec)
+        self._sink("metric", rec)
         self._hook_raises("metric")
 
     def on_log(self, event, fields) -> None:
@@ -434,14 +450,7 @@ class Env:
                "ra": ticks(ra), "t": self.now()}
         if "state" in f:
             rec["state"] = f["state"]
-        prev = self.trace[-1] if self.trace else None
-        if prev is not None and prev["e"] == "metric" and all(
-                prev[x] == rec[x] for x in ("name", "n", "sleep", "k", "err", "stop", "cause", "op", "t")) \
-                and prev.get("state") == rec.get("state"):
-            rec["e"] = "emit"
-            self.trace[-1] = rec          # both sinks received the identical record
-        else:
-            self.trace.append(rec)
+        self._sink("log", rec)
         self._hook_raises("log")
 
     # ------------------------------------------------------------------ budget
